@@ -34,6 +34,9 @@ func runKeepAliveExecution(t *testing.T, seed int64, log *traceLog) {
 		}
 		// "any number of peers": one execution in eight talks to 160 peers on 160 IPs
 		many := seed%8 == 7 || os.Getenv("VERIF_KA_MANY") != ""
+		if !many {
+			meta.Fam["C"] = 4 // an IP the application never writes to (the listen-only peer below)
+		}
 		if many {
 			meta.Fam = map[string]int{}
 			for i := 0; i < 160; i++ {
@@ -186,13 +189,25 @@ func runKeepAliveExecution(t *testing.T, seed int64, log *traceLog) {
 		// a peer the application only listens to: one explicit Client.CreatePermission at the start, never a WriteTo.
 		// What it sends must keep arriving for as long as the relayed socket is open.
 		listenOnly := ""
+		askListenOnly := func() error {
+			pa, _ := w.peers["C/1"].LocalAddr().(*net.UDPAddr)
+			if seed%4 == 2 {
+				// asked for together with a peer the client knows already (the application has written to it)
+				ka, _ := w.peers["A/1"].LocalAddr().(*net.UDPAddr)
+				_, _ = relay.WriteTo([]byte("hello|A/1"), ka)
+				synctest.Wait()
+				w.peers["A/1"].Drain()
+
+				return cl.CreatePermission(ka, pa)
+			}
+
+			return cl.CreatePermission(pa)
+		}
 		if !many && seed%2 == 0 {
-			listenOnly = "B/2"
-			pa, _ := w.peers[listenOnly].LocalAddr().(*net.UDPAddr)
-			if err := cl.CreatePermission(pa); err != nil {
+			listenOnly = "C/1"
+			if err := askListenOnly(); err != nil {
 				listenOnly = ""
 			} else {
-				peerKeys = peerKeys[:3] // (the application never writes to it)
 				log.add(map[string]any{"e": "Note", "what": "explicit CreatePermission for a listen-only peer", "t": sec()})
 			}
 		}
@@ -286,8 +301,7 @@ func runKeepAliveExecution(t *testing.T, seed int64, log *traceLog) {
 					synctest.Wait()
 				}
 				if listenOnly != "" { // the new allocation knows nothing of the old one's permissions
-					pa, _ := w.peers[listenOnly].LocalAddr().(*net.UDPAddr)
-					if err := cl.CreatePermission(pa); err != nil {
+					if err := askListenOnly(); err != nil {
 						listenOnly = ""
 					}
 				}
